@@ -7,9 +7,9 @@ NOTES = ("All checks are property-based tests / fuzzing (pgregory.net/rapid v1.3
 ENGINES = [
     {"name": "P", "path": "/verif/props", "serves_properties": ["C02", "C06", "C15", "C17", "C18", "C19", "C20"],
      "kind_free_text": "rapid properties and bounded exhaustive enumerators over exported functions / small state machines, judged by the reference model in /verif/ref"},
-    {"name": "S", "path": "/verif/sim", "serves_properties": ["C01", "C03", "C04", "C05", "C09", "C10", "C11", "C13", "C17"],
+    {"name": "S", "path": "/verif/sim", "serves_properties": ["C01", "C03", "C04", "C05", "C07", "C08", "C09", "C10", "C11", "C13", "C14", "C17", "C20"],
      "kind_free_text": "deterministic single-threaded cluster simulator over real node code (verif-tagged VerifNode), generated schedules and Byzantine strategies with an unforgeable key registry"},
-    {"name": "N", "path": "/verif/sim", "serves_properties": ["C07", "C08", "C09", "C12", "C18"],
+    {"name": "N", "path": "/verif/sim", "serves_properties": ["C06", "C07", "C08", "C09", "C12", "C13", "C18"],
      "kind_free_text": "one real node, harness holds every key: valid-then-mutated candidate messages in generated node states"},
     {"name": "R", "path": "/verif/rt", "serves_properties": ["C12", "C13", "C14", "C15", "C16", "C19"],
      "kind_free_text": "real two-goroutine runtime (MainLoop.Run) with gated SPIs and quiescence detection"},
@@ -20,7 +20,7 @@ ENGINES = [
 NOT_BUILT_REASON = {}
 
 SIM_NOTE = ("Trusts the fakes (HMAC key registry: a signature verifies only if made with the claimed sender's key; the adversary code path can sign only with Byzantine/outsider keys and copy observed bytes), "
-            "the verif-tagged VerifNode step functions (one legal interleaving of the two loops per event), the reference model in /verif/ref and rapid. Bounds: n<=7, heights<=3, traces<=~200 actions.")
+            "the verif-tagged VerifNode step functions (one legal interleaving of the two loops per event), the reference model in /verif/ref and rapid. Bounds: n<=7 (thorough 10), heights<=3 (4), traces<=~200 actions; weight classes up to stake-sized (k*2^58), optional membership change between heights.")
 
 CHECKS = {
     "C01": dict(engine="S", technique="stateful property-based testing (rapid): generated schedules + Byzantine strategies on a deterministic simulator of real nodes; invariant over commit history",
@@ -57,10 +57,10 @@ CHECKS = {
         level="No-crash / no-wedge / no-disable is checked in process (main-loop step and worker step under recover, then a scripted round, an election) and on the real two-goroutine runtime (supervisor log scanned for recovered panics, follow-up round must commit, quiescence-judged).",
         note="In-process layer uses the verif-tagged step functions that mirror the loop bodies; the runtime layer uses NewLeanHelix+Run unmodified."),
     "C13": dict(engine="R+S", technique="stateful property-based testing (rapid) on the real two-goroutine runtime with gated SPIs; invariants over the observed history; plus the deterministic simulator",
-        level="History invariants that hold under every interleaving (so scheduler nondeterminism cannot produce a false alarm), checked on generated runs in which syncs and elections land while the worker is held inside SPI calls and commit callbacks fail.",
+        level="History invariants that hold under every interleaving (so scheduler nondeterminism cannot produce a false alarm), checked on generated runs in which syncs and elections land while the worker is held inside SPI calls and commit callbacks fail; plus, on one real node driven step by step, valid NEW_VIEWs into views up to 2^64-1 followed by timeouts (no wrap-around of the view).",
         note="The harness controls SPI boundaries, not the Go scheduler: interleavings strictly inside the library are sampled (thorough also builds with -race)."),
-    "C14": dict(engine="R", technique="stateful property-based testing (rapid) on the real runtime; quiescence detection (goroutine stack snapshots) instead of timeouts",
-        level="'Eventually above the synced height' is judged at quiescence: both loops parked in their own select in two stack snapshots means nothing will ever change, so a missing effect is a real violation; a deadline hit is inconclusive, never a violation.",
+    "C14": dict(engine="R+S", technique="stateful property-based testing (rapid) on the real runtime; quiescence detection (goroutine stack snapshots) instead of timeouts; exact stale-sync invariants on the deterministic simulator",
+        level="Stale syncs (including the block exactly one below the current height) are additionally judged at the SPI boundary: no Stop/Register on the election scheduler, no Store/Clear on storage, no send, no callback, no (h,v) change - on settled triples of the real runtime and after every stale sync of generated cluster executions. 'Eventually above the synced height' is judged at quiescence: both loops parked in their own select in two stack snapshots means nothing will ever change, so a missing effect is a real violation; a deadline hit is inconclusive, never a violation.",
         note="Trusts the quiescence detector in /verif/rt (parses runtime.Stack output)."),
     "C15": dict(engine="P+R+S", technique="bounded exhaustive enumeration + random sequences against a reference registry model; stateful property-based testing of blocking SPI calls on the real runtime",
         level="(a) complete enumeration of short op sequences over a small position alphabet and long random ones against an executable specification; (b) generated interleavings of context-blocked SPI calls with elections, syncs and shutdown, judged on the recorded history.",
@@ -68,22 +68,22 @@ CHECKS = {
     "C16": dict(engine="R", technique="stateful property-based testing (rapid): cancellation injected at generated points of runs on the real runtime, with the real timer-based trigger as well",
         level="Shutdown completeness on generated runs: bounded WaitUntilShutdown, silence afterwards, goroutine diff, prompt return of API calls with a cancelled context.",
         note="Crash points are op boundaries plus whatever the scheduler adds; not every instruction-level point."),
-    "C17": dict(engine="P", technique="bounded exhaustive enumeration + property-based testing (rapid) against a reference future-cache model, including re-entrant advance",
-        level="All short sequences over a 12-letter alphabet and long random sequences on the real filter with a real State; the re-entrant case (commit during a drain) is generated explicitly.",
+    "C17": dict(engine="P+S", technique="bounded exhaustive enumeration + property-based testing (rapid) against a reference future-cache model, including re-entrant advance; node-level invariants in the stateful cluster simulator",
+        level="Node level (engine S): in generated cluster executions with committee membership changing between heights, foreign-instance / future-height injections and replays to arbitrary nodes, nothing is stored for a height the node is not at and a node outside a height's committee neither stores nor sends for it. Filter level: All short sequences over a 12-letter alphabet and long random sequences on the real filter with a real State; the re-entrant case (commit during a drain) is generated explicitly.",
         note="Interpretation of 'provided no message for a height above H had been received before it': before the start of H (the weaker obligation, consistent with the one-height bound)."),
-    "C19": dict(engine="P+R", technique="property-based testing (rapid): exact/saturating formula oracle; history oracle over real-timer runs",
-        level="(a) exact integer reference for the formula over the full view range; (b) counting and lower-bound rules over histories of the real trigger and of a full node on the real timer; liveness misses count only when repeated three times.",
+    "C19": dict(engine="P+R", technique="property-based testing (rapid): exact/saturating formula oracle; history oracle over real-timer runs; stateful runs of the real two-goroutine runtime with gated SPIs for the trigger's way through the loops",
+        level="(c) on the real runtime with a harness-played timer: the last trigger of a generated run, if it named the node's position when the main loop took it, has moved the node by final quiescence - including runs in which two triggers arrive inside one worker step (hand-over slot occupied). (a) exact integer reference for the formula over the full view range; (b) counting and lower-bound rules over histories of the real trigger and of a full node on the real timer; liveness misses count only when repeated three times.",
         note="(b) depends on the OS timer and the Go scheduler: only the lower bound and the counting rules are exact."),
-    "C20": dict(engine="P+F", technique="property-based testing (rapid) + native fuzzing: round-trip and signature re-verification oracle",
-        level="Every message the factory can build over the full field ranges is round-tripped; signatures are re-verified over the re-read bytes including nested votes and proofs.",
+    "C20": dict(engine="P+F+S", technique="property-based testing (rapid) + native fuzzing: round-trip and signature re-verification oracle; the same oracle as a monitor on everything correct nodes emit in the stateful cluster simulator",
+        level="In generated cluster executions every message a correct node puts on the wire (votes and proofs nested from messages it stored, incl. equivocating PREPAREs and Byzantine votes) parses back to the same header and every nested signature verifies over the re-read bytes. Factory level: Every message the factory can build over the full field ranges is round-tripped; signatures are re-verified over the re-read bytes including nested votes and proofs.",
         note="Trusts the HMAC key registry; messages are built only through messagesfactory."),
     "C18": dict(engine="P", technique="property-based testing (rapid) + dense enumeration of the leader function against view mod n in uint64",
         level="Leader function tabulated through a verif-tagged accessor over dense small views, all power-of-two neighbourhoods, 2^63 and 2^64-1 neighbourhoods and random 64-bit views for n=4..64, including round-robin windows.",
         note="Trusts the accessor VerifLeaderOf (one-line wrapper around the package-private function). Behavioural cross-check (leader acceptance on a real node at views >= 2^63) is part of C12/C08 engine N."),
     "C06": dict(
-        engine="P",
-        technique="property-based testing (rapid) + bounded exhaustive enumeration against a math/big reference",
-        level="Generated-input search: every law of the statement is an executable check against big-integer reference arithmetic, over all small weight vectors x all subset pairs (exhaustive), random vectors up to total 2^64 and committees constructed to sit exactly on the f/Q thresholds around 2^53..2^64. Holds on everything explored; not a proof for all 64-bit vectors.",
+        engine="P+N",
+        technique="property-based testing (rapid) + bounded exhaustive enumeration against a math/big reference; differential test of the thresholds as a real node applies them",
+        level="Behavioural part: on one real node, genuinely signed PREPAREs / COMMITs / VIEW_CHANGEs of generated sender sequences (repeats, outsiders, zero and stake-sized weights, ids sharing their leading bytes) are delivered one at a time and the node has acted (prepared / committed / elected) iff the distinct members counted reach Q in big integers - both directions. Function level: Generated-input search: every law of the statement is an executable check against big-integer reference arithmetic, over all small weight vectors x all subset pairs (exhaustive), random vectors up to total 2^64 and committees constructed to sit exactly on the f/Q thresholds around 2^53..2^64. Holds on everything explored; not a proof for all 64-bit vectors.",
         note="Trusts math/big and the reference formulas f=floor((W-1)/3), Q=W-f written from the property text. Precondition: distinct ids, total < 2^64, attainability law for W>=1.",
     ),
 }
